@@ -56,6 +56,9 @@ func must(err error) {
 
 // plan: kind "" (none) | "error" (the k-th datastore call fails with a transport error) |
 // "conflict" (the k-th compare-and-swap call, i.e. Update / Delete / DeleteKVP, fails with an update conflict).
+// Both leave the store untouched.  A third kind, "lostreply" (the k-th datastore call is EXECUTED but the caller
+// gets a transport error), is outside the fault model of the check; it is only used for the exploration described
+// in notes/C38.md (VERIF_CNI_LOSTREPLY=1 makes the seeded random leg use it).
 type plan struct {
 	kind string
 	k    int
@@ -67,11 +70,21 @@ type faulty struct {
 	calls int      // datastore calls of the current CNI call
 	cas   int      // compare-and-swap calls of the current CNI call
 	fired bool     // the planned fault was injected
+	lost  bool     // lostreply: execute the current call, then report a transport error
 	log   []string // "<op> <path>" of every call (debugging aid: VERIF_CNI_DEBUG=1)
 	keep  bool
 }
 
-func (f *faulty) arm(p plan) { f.plan, f.calls, f.cas, f.fired, f.log = p, 0, 0, false, nil }
+func (f *faulty) arm(p plan) { f.plan, f.calls, f.cas, f.fired, f.lost, f.log = p, 0, 0, false, false, nil }
+
+// reply passes the inner result on, or hides it behind a transport error (lostreply).
+func (f *faulty) reply(k model.Key, kv *model.KVPair, err error) (*model.KVPair, error) {
+	if f.lost {
+		f.lost = false
+		return nil, cerrors.ErrorDatastoreError{Identifier: k, Err: fmt.Errorf("verif: reply lost")}
+	}
+	return kv, err
+}
 
 func pathOf(k model.Key) string {
 	if k == nil {
@@ -97,7 +110,10 @@ func (f *faulty) gate(op string, k model.Key, path string, cas bool) error {
 	case f.plan.kind == "conflict" && cas && f.cas == f.plan.k:
 		err = cerrors.ErrorResourceUpdateConflict{Identifier: k, Err: fmt.Errorf("verif: injected conflict")}
 	}
-	if err != nil {
+	if f.plan.kind == "lostreply" && f.calls == f.plan.k {
+		f.lost = true
+	}
+	if err != nil || f.lost {
 		f.fired = true
 	}
 	if f.keep {
@@ -114,47 +130,57 @@ func (f *faulty) Create(ctx context.Context, d *model.KVPair) (*model.KVPair, er
 	if err := f.gate("create", d.Key, pathOf(d.Key), false); err != nil {
 		return nil, err
 	}
-	return f.in.Create(ctx, d)
+	kv, err := f.in.Create(ctx, d)
+	return f.reply(d.Key, kv, err)
 }
 
 func (f *faulty) Update(ctx context.Context, d *model.KVPair) (*model.KVPair, error) {
 	if err := f.gate("update", d.Key, pathOf(d.Key), true); err != nil {
 		return nil, err
 	}
-	return f.in.Update(ctx, d)
+	kv, err := f.in.Update(ctx, d)
+	return f.reply(d.Key, kv, err)
 }
 
 func (f *faulty) Apply(ctx context.Context, d *model.KVPair) (*model.KVPair, error) {
 	if err := f.gate("apply", d.Key, pathOf(d.Key), false); err != nil {
 		return nil, err
 	}
-	return f.in.Apply(ctx, d)
+	kv, err := f.in.Apply(ctx, d)
+	return f.reply(d.Key, kv, err)
 }
 
 func (f *faulty) DeleteKVP(ctx context.Context, d *model.KVPair) (*model.KVPair, error) {
 	if err := f.gate("delete", d.Key, pathOf(d.Key), true); err != nil {
 		return nil, err
 	}
-	return f.in.DeleteKVP(ctx, d)
+	kv, err := f.in.DeleteKVP(ctx, d)
+	return f.reply(d.Key, kv, err)
 }
 
 func (f *faulty) Delete(ctx context.Context, k model.Key, rev string) (*model.KVPair, error) {
 	if err := f.gate("delete", k, pathOf(k), true); err != nil {
 		return nil, err
 	}
-	return f.in.Delete(ctx, k, rev)
+	kv, err := f.in.Delete(ctx, k, rev)
+	return f.reply(k, kv, err)
 }
 
 func (f *faulty) Get(ctx context.Context, k model.Key, rev string) (*model.KVPair, error) {
 	if err := f.gate("get", k, pathOf(k), false); err != nil {
 		return nil, err
 	}
-	return f.in.Get(ctx, k, rev)
+	kv, err := f.in.Get(ctx, k, rev)
+	return f.reply(k, kv, err)
 }
 
 func (f *faulty) List(ctx context.Context, l model.ListInterface, rev string) (*model.KVPairList, error) {
 	if err := f.gate("list", nil, model.ListOptionsToDefaultPathRoot(l), false); err != nil {
 		return nil, err
+	}
+	if f.lost {
+		f.lost = false
+		return nil, cerrors.ErrorDatastoreError{Identifier: nil, Err: fmt.Errorf("verif: reply lost")}
 	}
 	return f.in.List(ctx, l, rev)
 }
@@ -185,6 +211,8 @@ type scenario struct {
 	Node  string
 	Cs    []container
 	Pools []pool
+	Cap4  int // number of addresses in the v4 pool (0 = no pool)
+	Cap6  int
 	Cool  int // IPCooldownSeconds; -1 = released addresses are reusable at once (deterministic)
 }
 
@@ -224,6 +252,7 @@ type drv struct {
 	store *memkv.Store
 	fc    *faulty
 	tmp   string
+	out   *os.File
 	debug bool
 }
 
@@ -253,7 +282,8 @@ func (d *drv) start(t int, sc *scenario) {
 	for _, c := range sc.Cs {
 		cs = append(cs, map[string]any{"id": c.ID, "pod": c.Pod, "ns": c.NS, "fams": fams(c.V4, c.V6)})
 	}
-	ev := map[string]any{"net": sc.Net, "node": sc.Node, "containers": cs, "pools": pools, "cool": sc.Cool}
+	ev := map[string]any{"net": sc.Net, "node": sc.Node, "containers": cs, "pools": pools, "cool": sc.Cool,
+		"cap4": sc.Cap4, "cap6": sc.Cap6}
 	d.observe(ev)
 	d.log.Reset(t, ev)
 }
@@ -377,20 +407,30 @@ func (d *drv) args(c container) *skel.CmdArgs {
 	}
 }
 
-// capture runs f with os.Stdout redirected to a file and returns what was printed.
+// capture runs f with os.Stdout redirected to a (reused) file and returns what was printed.
 func (d *drv) capture(f func() error) (string, error) {
-	p := filepath.Join(d.tmp, "stdout")
-	out, err := os.Create(p)
+	if d.out == nil {
+		out, err := os.Create(filepath.Join(d.tmp, "stdout"))
+		must(err)
+		d.out = out
+	}
+	must(d.out.Truncate(0))
+	_, err := d.out.Seek(0, io.SeekStart)
 	must(err)
 	saved := os.Stdout
-	os.Stdout = out
+	os.Stdout = d.out
 	var ferr error
 	func() {
-		defer func() { os.Stdout = saved; out.Close() }()
+		defer func() { os.Stdout = saved }()
 		ferr = f()
 	}()
-	raw, err := os.ReadFile(p)
+	n, err := d.out.Seek(0, io.SeekCurrent)
 	must(err)
+	raw := make([]byte, n)
+	_, err = d.out.ReadAt(raw, 0)
+	if n > 0 {
+		must(err)
+	}
 	return string(raw), ferr
 }
 
@@ -499,7 +539,8 @@ func (d *drv) replay(t int, beh []map[string]any) {
 	}
 	in := beh[0]
 	sc := &scenario{Net: tracelog.Str(in["net"]), Node: "node1", Cs: toContainers(in["containers"]),
-		Pools: poolsFor(tracelog.Int(in["cap4"]), tracelog.Int(in["cap6"])), Cool: -1}
+		Cap4: tracelog.Int(in["cap4"]), Cap6: tracelog.Int(in["cap6"]), Cool: -1}
+	sc.Pools = poolsFor(sc.Cap4, sc.Cap6)
 	d.start(t, sc)
 	for _, r := range beh[1:] {
 		switch op := tracelog.Str(r["op"]); op {
@@ -522,12 +563,14 @@ func (d *drv) random(t int, rnd *rand.Rand) {
 	if rnd.Intn(5) == 0 {
 		sc.Cool = 3600 // released addresses stay in cooldown for the whole trace: pools run dry quickly
 	}
-	sc.Pools = poolsFor(caps[1+rnd.Intn(5)], caps[rnd.Intn(6)])
+	sc.Cap4, sc.Cap6 = caps[1+rnd.Intn(5)], caps[rnd.Intn(6)]
+	sc.Pools = poolsFor(sc.Cap4, sc.Cap6)
 	npods := 1 + rnd.Intn(3)
-	ncs := 2 + rnd.Intn(4)
+	ncs := 2 + rnd.Intn(4) // 2..5
 	for i := 0; i < ncs; i++ {
-		pod := fmt.Sprintf("pod%d", rnd.Intn(npods))
-		c := container{ID: fmt.Sprintf("cid%02d", i), Pod: pod, NS: "ns1", V4: true, V6: rnd.Intn(3) > 0}
+		pod := []string{"pod1", "pod10", "pod2"}[rnd.Intn(npods)]
+		// ids with a prefix relation (cid1 / cid10 / cid100): handles must be compared exactly
+		c := container{ID: "cid" + []string{"1", "10", "2", "100", "20"}[i], Pod: pod, NS: "ns1", V4: true, V6: rnd.Intn(3) > 0}
 		if rnd.Intn(8) == 0 {
 			c.V4, c.V6 = false, true
 		}
@@ -540,7 +583,9 @@ func (d *drv) random(t int, rnd *rand.Rand) {
 		c := sc.Cs[rnd.Intn(len(sc.Cs))]
 		p := plan{}
 		if rnd.Float64() < pf {
-			if rnd.Intn(3) == 0 {
+			if os.Getenv("VERIF_CNI_LOSTREPLY") == "1" {
+				p = plan{"lostreply", 1 + rnd.Intn(36)}
+			} else if rnd.Intn(3) == 0 {
 				p = plan{"conflict", 1 + rnd.Intn(6)}
 			} else {
 				p = plan{"error", 1 + rnd.Intn(40)}
